@@ -106,6 +106,7 @@ class Obligation:
                 "solver_s": round(self.solver_s, 4), "backend": self.backend, "cex": self.cex,
                 "detail": self.detail, "kind": getattr(self, "kind", "rule"),
                 "no_input_expected": getattr(self, "no_input_expected", False),
+                "shape_only": getattr(self, "shape_only", False),
                 "bounded": getattr(self, "bounded", False), "vc_sample": getattr(self, "vc_sample", None),
                 "confirmed_natively": getattr(self, "confirmed_natively", False)}
 
